@@ -54,6 +54,7 @@ type Contract struct {
 	Loops    map[int]*LoopSpec
 	MapRange map[int]string
 	SortCall map[int]string // ordinal of a sort.Slice call -> "total"
+	ErrDrops []string       // call sites (callee#n | callee#*) whose error result is dropped on purpose, with the reason
 	PanicsIf *Clause
 	Asserts  []*Clause
 	File     string
@@ -107,7 +108,7 @@ type ContractSet struct {
 
 var clauseKeywords = map[string]bool{
 	"func": true, "props": true, "requires": true, "ensures": true, "pure": true, "opaque": true, "propagates": true, "errignorable": true, "inline": true,
-	"trusted": true, "assigns": true, "loop": true, "maprange": true, "sortcall": true, "panics": true, "at": true,
+	"trusted": true, "assigns": true, "loop": true, "maprange": true, "sortcall": true, "errdrop": true, "panics": true, "at": true,
 	"pred": true, "ghost": true, "abstract": true, "reveal": true, "reads": true, "lemma": true, "typeinv": true, "axiom": true, "valueptr": true,
 	"note": true, "end": true, "immutable": true,
 }
@@ -255,6 +256,8 @@ func (cs *ContractSet) parseFile(pkg, file, text string) error {
 			cur.Ensures = append(cur.Ensures, mk("ensures"))
 		case "pure":
 			cur.Pure = true
+			// a pure function writes nothing but objects it allocates itself (checked like `assigns nothing`)
+			cur.HasAssigns = true
 		case "opaque":
 			cur.Opaque = true
 		case "errignorable":
@@ -312,6 +315,12 @@ func (cs *ContractSet) parseFile(pkg, file, text string) error {
 				return fmt.Errorf("%s:%d: maprange ordinal: %v", file, ln, err)
 			}
 			cur.MapRange[n] = strings.Join(f[1:], " ")
+		case "errdrop":
+			// errdrop callee#n reason...  -- the error of that call is deliberately not propagated
+			if len(strings.Fields(rest)) < 2 {
+				return fmt.Errorf("%s:%d: errdrop needs a call site and a reason", file, ln)
+			}
+			cur.ErrDrops = append(cur.ErrDrops, rest)
 		case "sortcall":
 			f := strings.Fields(rest)
 			if len(f) != 2 || f[1] != "total" {
